@@ -40,7 +40,15 @@ CALL_FORMS = {
     "sched": "schedule function {t}() 5t;",
     "exec": "execute as @a at @s run {t}();",
     "with": "{t}() with {{x: 1}};",
+    "lazy": "{t}();",          # (round 3) a call of a @lazy function (expanded in place)
+    # (round 3) the call inside a one-command block (inlined: `execute ... run function <loc>` stays in the caller's file)
+    "ifrun": "if ($v matches 1..2) {{ {t}(); }}",
+    "arrow1": "execute as @a run {{ {t}(); }}",
 }
+
+
+def lazy_mark(mk: int) -> str:
+    return f"T{mk}T"
 
 
 def call_text(c) -> str:
@@ -69,6 +77,15 @@ def render(items, indent="") -> str:
                 out.append(f"{indent}{deco}function {it[1]}() {{\n{first}{calls}{inner}{indent}}}")
         elif k == "class":
             out.append(f"{indent}class {it[1]} {{\n{render(it[2], indent + '    ')}{indent}}}")
+        elif k == "lazy":
+            # (round 3) a @lazy function: no file; its body is expanded at every call, whatever class the call is written in
+            inner = render(it[3], indent + "    ")
+            calls = "".join(f"{indent}    {call_text(c)}\n" for c in it[4])
+            deco = it[5] if len(it) > 5 else "@lazy"          # "@lazy" | "@if(1)": both are expanded by PreFunction.handle_lazy
+            out.append(f'{indent}{deco} function {it[1]}() {{\n{indent}    say "{lazy_mark(it[2])}";\n{calls}{inner}{indent}}}')
+        elif k == "load":
+            # (round 3) statements of the load function (top level only): a marker and call sites
+            out.append(f'{indent}say "{mark(it[1])}";\n' + "".join(f"{indent}{call_text(c)}\n" for c in it[2]).rstrip("\n"))
         elif k == "new":
             out.append(f'{indent}new {it[1]}({it[2]}) {{"m": "{mark(it[3])}"}}')
         elif k == "genpriv":
@@ -86,25 +103,38 @@ def item_term(it, locfolder="predicate") -> str:
         return f"IClass {coq_str(it[1])} {coq_list(item_term(x, locfolder) for x in it[2])}"
     if k == "new":
         return f"INew {coq_str(it[1])} {coq_str(it[2])} {it[3]}"
+    if k == "at":
+        return f"IAt {coq_str(it[1])} {coq_list(item_term(x, locfolder) for x in it[2])}"
     if k == "genpriv":
         t, n, _, _ = GEN_PRIV[it[1]]
         return f"IGenPriv {coq_str(t)} {coq_str(n)} {it[2]}"
     return f"IGenJson {coq_str(locfolder)} {coq_str(it[1])} {it[2]}"
 
 
-def markers_of(items, acc=None):
+def markers_of(items, acc=None, lv=None):
     """{mk: search string / signature} of every definition in the tree"""
     acc = {} if acc is None else acc
+    if lv is None and has_lazy(items):
+        lv = LazyView(items)
     for it in items:
         k = it[0]
+        if k == "lazy":
+            # the definitions a lazy body declares exist iff the body is expanded (twice = duplicate, rejected)
+            tpath = next((p for p, t in lv.tpl.items() if t["item"] is it), None)
+            if lv.uses.get(tpath, 0) > 0:
+                markers_of(it[3], acc, lv)
+            continue
+        if k == "load":
+            acc[it[1]] = ("loadtext", mark(it[1]))
+            continue
         if k == "func":
             if func_opts(it).get("body", "marker") == "marker":
                 acc[it[2]] = ("text", mark(it[2]))
             else:
                 acc[it[2]] = ("file", "/" + it[1].split(".")[-1].lower() + ".mcfunction")
-            markers_of(it[3], acc)
+            markers_of(it[3], acc, lv)
         elif k == "class":
-            markers_of(it[2], acc)
+            markers_of(it[2], acc, lv)
         elif k == "new":
             acc[it[3]] = ("text", mark(it[3]))
         elif k == "genpriv":
@@ -203,7 +233,171 @@ def py_path(name):
 PLAIN = re.compile(r"^[A-Za-z0-9_]+(\.[A-Za-z0-9_]+)*$")
 
 
-def add_calls(rng, prog, n=3, forms=False, with_ok=False):
+# ------------------------------------------------------------------ (round 3) @lazy functions in classes
+# ("lazy", name, mk, [inner definitions], [calls])  is  `@lazy function name() { say "T<mk>T"; <calls> <inner> }`.  It has no file.
+# A call ("lazy", spelling) in a function / in the load statements ("load", mk, [calls]) is expanded in place; documented meaning: the
+# body means what it means where it is WRITTEN — `this.` is the lazy function's class and a function declared by the body belongs
+# to that class — whatever class, nested class or top-level function the call is written in.  Model/Defs.v: IAt <prefix> <inner>.
+
+class Unresolved(Exception):
+    pass
+
+
+class LazyView:
+    def __init__(self, prog):
+        self.tpl = {}          # documented path -> dict(classes, item, order)
+        self.order = 0
+        self.uses = {}         # documented path -> number of expansions in the whole program
+        self._collect(prog, [])
+        self._count(prog, [])
+
+    @staticmethod
+    def resolve(spelling, classes):
+        if spelling.startswith("this."):
+            return py_path(".".join(classes + [spelling[5:]]))
+        return py_path(spelling)
+
+    def _collect(self, items, classes):
+        for it in items:
+            self.order += 1
+            if it[0] == "lazy":
+                self.tpl[py_path(".".join(classes + [it[1]]))] = dict(classes=list(classes), item=it, order=self.order)
+            elif it[0] == "class":
+                self._collect(it[2], classes + [it[1]])
+            elif it[0] == "func":
+                self._collect(it[3], classes)
+
+    def _bump(self, tpath, depth=0):
+        if tpath not in self.tpl or depth > 6:
+            raise Unresolved(tpath)
+        self.uses[tpath] = self.uses.get(tpath, 0) + 1
+        t = self.tpl[tpath]
+        for c in t["item"][4]:
+            if not isinstance(c, str) and c[0] == "lazy":
+                self._bump(self.resolve(c[1], t["classes"]), depth + 1)
+
+    def _count(self, items, classes):
+        for it in items:
+            if it[0] in ("func", "load"):
+                for c in (it[4] if it[0] == "func" and len(it) > 4 else it[2] if it[0] == "load" else []):
+                    if not isinstance(c, str) and c[0] == "lazy":
+                        self._bump(self.resolve(c[1], classes))
+                if it[0] == "func":
+                    self._count(it[3], classes)
+            elif it[0] == "class":
+                self._count(it[2], classes + [it[1]])
+
+    # ---- what one call site expands to
+    def lines(self, c, classes, loc, depth=0):
+        """expected `function <loc>` lines of one call written in class context `classes`"""
+        form, sp = ("call", c) if isinstance(c, str) else c
+        target = self.resolve(sp, classes)
+        if form != "lazy":
+            return ["function " + loc(target)]
+        if target not in self.tpl or depth > 6:
+            raise Unresolved(target)
+        t = self.tpl[target]
+        return [l for c2 in t["item"][4] for l in self.lines(c2, t["classes"], loc, depth + 1)]
+
+    def at_items(self, calls, classes, depth=0):
+        """model items of the definitions the lazy calls among `calls` place: IAt <template prefix> <its inner definitions>"""
+        out = []
+        for c in calls:
+            if isinstance(c, str) or c[0] != "lazy":
+                continue
+            target = self.resolve(c[1], classes)
+            if target not in self.tpl or depth > 6:
+                raise Unresolved(target)
+            t = self.tpl[target]
+            prefix = "".join(py_path(k) + "/" for k in t["classes"])
+            out.append(("at", prefix, self.at_items(t["item"][4], t["classes"], depth + 1) + self.model(t["item"][3], t["classes"])))
+        return out
+
+    def model(self, items, classes):
+        """the definition tree handed to Model/Defs.v: templates dropped, every lazy call replaced by the definitions it places"""
+        out = []
+        for it in items:
+            if it[0] == "func":
+                calls = it[4] if len(it) > 4 else []
+                out.append(("func", it[1], it[2], self.at_items(calls, classes) + self.model(it[3], classes)))
+            elif it[0] == "class":
+                out.append(("class", it[1], self.model(it[2], classes + [it[1]])))
+            elif it[0] == "lazy":
+                continue
+            elif it[0] == "load":
+                out.extend(self.at_items(it[2], classes))
+            else:
+                out.append(it)
+        return out
+
+
+def lazy_coverage(cases):
+    """measured: accepted compiles with at least one expansion of a lazy function of class X written in a different class / a nested
+    class / at top level / in load, whose body uses `this.` / declares a definition"""
+    cov = dict(programs=0, accepted=0, expansions=0, callers_other_class=0, callers_nested=0, callers_top=0, callers_load=0,
+               bodies_with_this=0, bodies_declaring=0)
+    for c in cases:
+        if not has_lazy(c["prog"]):
+            continue
+        cov["programs"] += 1
+        if not c["res"]["ok"]:
+            continue
+        cov["accepted"] += 1
+        lv = LazyView(c["prog"])
+
+        def walk(items, classes):
+            for it in items:
+                calls = it[4] if it[0] == "func" and len(it) > 4 else it[2] if it[0] == "load" else []
+                for cl in calls:
+                    if isinstance(cl, str) or cl[0] != "lazy":
+                        continue
+                    t = lv.tpl.get(lv.resolve(cl[1], classes))
+                    if not t:
+                        continue
+                    cov["expansions"] += 1
+                    tc = t["classes"]
+                    if it[0] == "load":
+                        cov["callers_load"] += 1
+                    elif not classes:
+                        cov["callers_top"] += 1
+                    elif classes != tc and classes[:len(tc)] == tc:
+                        cov["callers_nested"] += 1
+                    elif classes != tc:
+                        cov["callers_other_class"] += 1
+                    if classes != tc:
+                        cov["bodies_with_this"] += any("this." in (x if isinstance(x, str) else x[1]) for x in t["item"][4])
+                        cov["bodies_declaring"] += bool(t["item"][3])
+                if it[0] == "func":
+                    walk(it[3], classes)
+                elif it[0] == "class":
+                    walk(it[2], classes + [it[1]])
+        walk(c["prog"], [])
+    return cov
+
+
+def has_lazy(items) -> bool:
+    return any(it[0] in ("lazy", "load") or (it[0] == "func" and has_lazy(it[3])) or (it[0] == "class" and has_lazy(it[2])) for it in items)
+
+
+def model_tree(prog):
+    return LazyView(prog).model(prog, []) if has_lazy(prog) else prog
+
+
+def lazy_text_failures(prog, res):
+    """every expansion of a lazy body prints its `say T<mk>T` once: total occurrences == number of expansion sites"""
+    if not res["ok"] or not has_lazy(prog):
+        return []
+    lv = LazyView(prog)
+    out = []
+    for tpath, t in lv.tpl.items():
+        want = lv.uses.get(tpath, 0)
+        got = sum(c.count(lazy_mark(t["item"][2])) for c in res["files"].values())
+        if got != want:
+            out.append(dict(kind="lazy-expansion-lost-or-duplicated", template=tpath, expected_expansions=want, found=got))
+    return out
+
+
+def add_calls(rng, prog, n=3, forms=False, with_ok=False, internal_targets=("__load__", "__tick__")):
     """Add call sites to function bodies: absolute calls to top-level functions / class members and
     `this.` calls between members of the same class.  Returns the new tree."""
     targets = []      # (call spelling from anywhere, documented path)
@@ -215,7 +409,7 @@ def add_calls(rng, prog, n=3, forms=False, with_ok=False):
             elif it[0] == "class" and PLAIN.match(it[1]):
                 collect(it[2], classes + [it[1]])
     collect(prog, [])
-    add_targets = [t[0] for t in targets if not t[0].split(".")[-1].startswith("E")] + ["__load__", "__tick__"]
+    add_targets = [t[0] for t in targets if not t[0].split(".")[-1].startswith("E")] + list(internal_targets)
 
     def form(spelling):
         return spelling if not forms or rng.random() < 0.4 else (rng.choice(["call", "sched", "exec"] + (["with"] if with_ok else [])), spelling)
@@ -249,6 +443,7 @@ def add_calls(rng, prog, n=3, forms=False, with_ok=False):
 def expected_calls(prog, cfg):
     """{caller marker: [expected `function <loc>` lines in order]}"""
     exp = {}
+    lv = LazyView(prog) if has_lazy(prog) else None
 
     def loc(path):
         first = path.split("/")[0]
@@ -256,20 +451,32 @@ def expected_calls(prog, cfg):
             return f"{first}:{path[len(first) + 1:]}"
         return f"{cfg['ns']}:{path}"
 
+    def lines_of_calls(calls, classes):
+        lines = []
+        for c in calls:
+            if lv is not None:
+                lines.extend(lv.lines(c, classes, loc))
+                continue
+            c = c if isinstance(c, str) else c[1]
+            if c.startswith("this."):
+                lines.append("function " + loc(py_path(".".join(classes + [c[5:]]))))
+            else:
+                lines.append("function " + loc(py_path(c)))
+        return lines
+
     def walk(items, classes):
         for it in items:
             if it[0] == "func":
                 calls = it[4] if len(it) > 4 else []
                 if calls:
-                    lines = []
-                    for c in calls:
-                        c = c if isinstance(c, str) else c[1]
-                        if c.startswith("this."):
-                            lines.append("function " + loc(py_path(".".join(classes + [c[5:]]))))
-                        else:
-                            lines.append("function " + loc(py_path(c)))
-                    exp[it[2]] = lines
+                    exp[it[2]] = lines_of_calls(calls, classes)
                 walk(it[3], classes)
+            elif it[0] == "load":
+                if it[2]:
+                    exp[it[1]] = lines_of_calls(it[2], classes)
+            elif it[0] == "lazy":
+                if lv.uses.get(py_path(".".join(classes + [it[1]])), 0) > 0:
+                    walk(it[3], classes)          # the functions its body declares: their `this.` is the lazy function's class
             elif it[0] == "class":
                 walk(it[2], classes + [it[1]])
     walk(prog, [])
@@ -287,8 +494,17 @@ def expected_files(prog, cfg, types):
             return f"VIRTUAL/data/{first}/{folder}{path[len(first) + 1:]}{ext}"
         return f"VIRTUAL/data/{cfg['ns']}/{folder}{path}{ext}"
 
+    lv = LazyView(prog) if has_lazy(prog) else None
+
     def walk(items, classes, in_func):
         for it in items:
+            if it[0] == "lazy":
+                # what the body declares belongs to the class of the lazy function, wherever it is expanded
+                if lv.uses.get(py_path(".".join(classes + [it[1]])), 0) > 0:
+                    walk(it[3], classes, True)
+                continue
+            if it[0] == "load":
+                continue
             if it[0] == "func":
                 if PLAIN.match(it[1]) and all(PLAIN.match(c) for c in classes) and not it[1].startswith("this."):
                     exp[it[2]] = place(py_path(".".join(classes + [it[1]])), ff + "/", ".mcfunction")
@@ -325,6 +541,10 @@ def call_site_failures(prog, cfg, res):
 
 def uses_with(items) -> bool:
     for it in items:
+        if it[0] == "lazy" and (any(not isinstance(c, str) and c[0] == "with" for c in it[4]) or uses_with(it[3])):
+            return True
+        if it[0] == "load" and any(not isinstance(c, str) and c[0] == "with" for c in it[2]):
+            return True
         if it[0] == "func":
             if any(not isinstance(c, str) and c[0] == "with" for c in (it[4] if len(it) > 4 else [])) or uses_with(it[3]):
                 return True
@@ -392,7 +612,8 @@ def reference_failures(prog, cfg, res):
         if not m or not PLAIN.match(m.group(1).replace("__", "x")):
             continue
         target = m.group(1)
-        tfile = file_of(loc(py_path(target))) if target not in ("__load__", "__tick__") else file_of(f"{cfg['ns']}:{target}")
+        n = names_of(cfg)
+        tfile = file_of(loc(py_path(target))) if py_path(target) not in (n["LOAD"], n["TICK"]) else file_of(f"{cfg['ns']}:{py_path(target)}")
         want = "function " + loc(pth)
         if want not in (files.get(tfile) or "").split("\n"):
             fails.append(dict(kind="add-call-missing", decorated=pth, target_file=tfile, expected_line=want,
@@ -506,23 +727,345 @@ COLLIDING = [
                             ("func", "main", 3, [], [("with", "shared.util.clear"), ("with", "shared.k.m")])]),
 ]
 
+
+def L(name, mk, calls=(), inner=(), deco="@lazy"):
+    """(round 3) a @lazy function (no file; expanded at every call)"""
+    return ("lazy", name, mk, list(inner), list(calls), deco)
+
+
+def FC(name, mk, calls, inner=()):
+    return ("func", name, mk, list(inner), list(calls))
+
+
+def LD(mk, *calls):
+    """statements of the load function: a marker and call sites"""
+    return ("load", mk, list(calls))
+
+
+# ---- round 3: @lazy functions inside classes, `this.` / declarations in their body, called from OTHER classes, nested classes,
+# top-level functions and the load function.  Every caller class has its own `helper` / `made` so that a body parsed with the
+# CALLER's prefix would still compile (and silently call / declare the wrong one).
+LAZY_SHAPES = [
+    ("lazy-this-other-class", [C("lib", L("tpl", 1, ["this.helper"]), F("helper", 2)),
+                               C("game", F("helper", 3), FC("run", 4, [("lazy", "lib.tpl"), "this.helper"]))]),
+    ("lazy-declares-other-class", [C("lib", L("tpl", 1, [], [F("made", 2)]), F("helper", 3)),
+                                   C("game", F("made", 4), FC("run", 5, [("lazy", "lib.tpl")]))]),
+    ("lazy-this-and-declares", [C("lib", L("tpl", 1, ["this.helper", ("sched", "this.helper"), ("exec", "this.made")], [FC("made", 2, ["this.helper", "this.made"])]), F("helper", 3)),
+                                C("game", F("helper", 4), F("made", 5), FC("run", 6, ["this.helper", ("lazy", "lib.tpl"), "this.made"]))]),
+    ("lazy-nested-class-caller", [C("lib", L("tpl", 1, ["this.helper"], [F("made", 2)]), F("helper", 3),
+                                    C("sub", F("helper", 4), F("made", 5), FC("go", 6, [("lazy", "lib.tpl"), "this.helper"])))]),
+    ("lazy-in-nested-class", [C("lib", F("helper", 1), C("deep", L("tpl", 2, ["this.helper", "lib.helper"], [F("made", 3)]), F("helper", 4))),
+                              C("game", F("helper", 5), FC("run", 6, [("lazy", "lib.deep.tpl")])), FC("top", 7, ["lib.deep.helper"])]),
+    ("lazy-top-level-caller", [C("lib", L("tpl", 1, ["this.helper"], [F("made", 2)]), F("helper", 3)), F("helper", 4), F("made", 5),
+                               FC("top", 6, [("lazy", "lib.tpl"), "helper"])]),
+    ("lazy-load-caller", [C("lib", L("tpl", 1, ["this.helper"], [F("made", 2)]), F("helper", 3)), F("helper", 4), LD(5, ("lazy", "lib.tpl"), "helper")]),
+    ("lazy-same-class-caller", [C("lib", L("tpl", 1, ["this.helper"], [F("made", 2)]), F("helper", 3), FC("same", 4, [("lazy", "this.tpl"), "this.helper"]))]),
+    ("lazy-calls-lazy", [C("lib", L("inner", 1, ["this.helper"]), L("outer", 2, [("lazy", "this.inner"), "this.helper"], [F("made", 3)]), F("helper", 4)),
+                         C("other", L("wrap", 5, [("lazy", "lib.outer"), "this.helper"]), F("helper", 6)),
+                         C("game", F("helper", 7), FC("run", 8, [("lazy", "other.wrap"), "this.helper"]))]),
+    ("lazy-many-callers", [C("lib", L("tpl", 1, ["this.helper", ("sched", "this.helper")]), F("helper", 2)),
+                           C("a", F("helper", 3), FC("r1", 4, [("lazy", "lib.tpl")]), C("b", F("helper", 5), FC("r2", 6, [("lazy", "lib.tpl"), ("lazy", "lib.tpl")]))),
+                           FC("top", 7, [("lazy", "lib.tpl")]), LD(8, ("lazy", "lib.tpl"))]),
+    ("lazy-declares-twice", [C("lib", L("tpl", 1, [], [F("made", 2)])), C("a", FC("r1", 3, [("lazy", "lib.tpl")])), C("b", FC("r2", 4, [("lazy", "lib.tpl")]))]),
+    ("lazy-declares-vs-user", [C("lib", L("tpl", 1, [], [F("made", 2)]), F("made", 3)), C("game", FC("run", 4, [("lazy", "lib.tpl")]))]),
+    ("lazy-declares-vs-caller-class", [C("lib", L("tpl", 1, [], [F("made", 2)])), C("game", FC("run", 3, [("lazy", "lib.tpl")]), F("made", 4)), F("game.made2", 5)]),
+    ("lazy-declares-json", [C("lib", L("tpl", 1, [], [N("predicate", "pp", 2), F("made", 3)])), C("game", N("predicate", "pp2", 4), FC("run", 5, [("lazy", "lib.tpl")]))]),
+    ("lazy-override-namespace", [C("shared", C("util", L("tpl", 1, ["this.done", ("sched", "this.done")], [F("made", 2)]), F("done", 3))),
+                                 C("game", F("done", 4), FC("run", 5, [("lazy", "shared.util.tpl")])), C("minecraft", F("done", 6), FC("go", 7, [("lazy", "shared.util.tpl")]))]),
+    ("lazy-dotted-class", [C("Lib.Core", L("Tpl", 1, ["this.Helper"], [F("Made", 2)]), F("Helper", 3)), C("game", F("helper", 4), FC("run", 5, [("lazy", "Lib.Core.Tpl")]))]),
+    ("lazy-unused", [C("lib", L("tpl", 1, ["this.helper"], [F("made", 2)]), F("helper", 3)), C("game", FC("run", 4, ["lib.helper"]))]),
+    ("lazy-if-decorator", [C("lib", L("tpl", 1, ["this.helper", ("ifrun", "this.helper"), ("arrow1", "this.helper")], [F("made", 2)], deco="@if(1)"), F("helper", 3)),
+                           C("game", F("helper", 4), F("made", 5), FC("run", 6, [("lazy", "lib.tpl"), ("ifrun", "this.helper")]))]),
+    ("lazy-block-forms", [C("lib", L("tpl", 1, [("ifrun", "this.helper"), ("arrow1", "this.helper"), ("exec", "this.helper")]), F("helper", 2)),
+                          C("game", F("helper", 3), FC("run", 4, [("arrow1", "this.helper"), ("lazy", "lib.tpl"), ("ifrun", "this.helper")]))]),
+    ("lazy-with-forms", [C("lib", L("tpl", 1, [("with", "this.helper"), ("exec", "this.helper")]), F("helper", 2)), C("game", F("helper", 3), FC("run", 4, [("lazy", "lib.tpl")]))]),
+]
+
+
+class LazyGen:
+    """(round 3) random programs: library classes (possibly nested) holding @lazy functions whose bodies use `this.` and declare
+    functions / json; callers in other classes, nested classes, the same class, top-level functions and the load function; every
+    class has members of the same names."""
+
+    def __init__(self, rng):
+        self.rng, self.mk = rng, 0
+
+    def next_mk(self):
+        self.mk += 1
+        return self.mk
+
+    def program(self, with_ok=True):
+        r = self.rng
+        self.mk = 0
+        members = ["helper", "go", "made"]
+        lib_names = r.sample(["lib", "Lib.core", "shared", "util", "shared.util", "kit"], r.randint(1, 2))
+        tpls = []          # (absolute spelling, class path list)
+        decl_budget = {}
+        prog = []
+
+        def call_forms(sp):
+            return sp if r.random() < 0.4 else (r.choice(["sched", "exec", "ifrun", "arrow1"] + (["with"] if with_ok else [])), sp)
+
+        def lib_class(name, classes, depth):
+            ms = [F(m, self.next_mk()) for m in members[:r.randint(1, 3)]]
+            names = [m[1] for m in ms]
+            for ti in range(r.randint(1, 2)):
+                tname = f"tpl{self.next_mk()}"
+                calls = [call_forms("this." + r.choice(names)) for _ in range(r.randint(0, 3))]
+                if tpls and r.random() < 0.3:
+                    calls.insert(r.randrange(len(calls) + 1), ("lazy", r.choice(tpls)[0]))     # a lazy body calling an earlier lazy function
+                inner = []
+                if r.random() < 0.5:
+                    inner.append(FC(f"made{self.next_mk()}" if r.random() < 0.7 else "made", self.next_mk(), [call_forms("this." + r.choice(names))] if r.random() < 0.5 else []))
+                if r.random() < 0.2:
+                    inner.append(N("predicate", f"p{self.next_mk()}", self.next_mk()))
+                ms.append(L(tname, self.next_mk(), calls, inner, deco=r.choice(["@lazy", "@lazy", "@if(1)"])))
+                tpls.append((".".join(classes + [name, tname]), classes + [name]))
+            if depth > 0 and r.random() < 0.4:
+                ms.append(lib_class(r.choice(["deep", "in", "sub"]), classes + [name], depth - 1))
+            if r.random() < 0.45:
+                # a nested class of the library that CALLS the library's lazy functions (its own members have the same names)
+                own = members[:r.randint(1, 3)]
+                sub = [F(m, self.next_mk()) for m in own]
+                mine = [t[0] for t in tpls if t[1] == classes + [name]]
+                sub.append(FC(f"go{self.next_mk()}", self.next_mk(), [("lazy", r.choice(mine)), call_forms("this." + r.choice(own))]))
+                ms.append(C(r.choice(["nest", "part"]), *sub))
+            if r.random() < 0.5:
+                ms.append(FC("same", self.next_mk(), [("lazy", "this." + r.choice([m[1] for m in ms if m[0] == "lazy"])), "this." + r.choice(names)]))
+            r.shuffle(ms)
+            # a lazy function must be defined before it is used: templates first
+            ms.sort(key=lambda m: 0 if m[0] == "lazy" else 1)
+            return C(name, *ms)
+        for ln in lib_names:
+            prog.append(lib_class(ln, [], 1))
+
+        def caller_calls(own_members):
+            calls = []
+            for _ in range(r.randint(1, 3)):
+                x = r.random()
+                if x < 0.6:
+                    calls.append(("lazy", r.choice(tpls)[0]))
+                elif own_members:
+                    calls.append(call_forms("this." + r.choice(own_members)))
+            return calls
+
+        def caller_class(name, depth):
+            own = members[:r.randint(1, 3)]
+            ms = [F(m, self.next_mk()) for m in own]
+            for _ in range(r.randint(1, 2)):
+                ms.append(FC(f"run{self.next_mk()}", self.next_mk(), caller_calls(own)))
+            if depth > 0 and r.random() < 0.4:
+                ms.append(caller_class(r.choice(["inner", "sub", "lib"]), depth - 1))
+            return C(name, *ms)
+        for cn in r.sample(["game", "Game.Mode", "minecraft", "shared", "lib2", "k"], r.randint(1, 2)):
+            if cn in lib_names:
+                continue
+            prog.append(caller_class(cn, 1))
+        for m in members[:r.randint(0, 2)]:
+            prog.append(F(m, self.next_mk()))
+        if r.random() < 0.6:
+            prog.append(FC(f"top{self.next_mk()}", self.next_mk(), caller_calls([])))
+        if r.random() < 0.4:
+            prog.append(LD(self.next_mk(), *[c for c in caller_calls([]) if not isinstance(c, str)]))
+        return prog
+
+
+# ------------------------------------------------------------------ (round 3) user definitions at compiler-generated names
+# "A definition and a resource the compiler generates itself landing on the same path must fail or coexist, never silently replace."
+# Generators: every built-in with a compiling probe (harness/c07.py registry probes + hand probes), the statements that allocate
+# private functions, and @add.  For every file a generator makes the compiler write (or extend: the load / tick function), a user
+# definition of exactly that name is added (function / class member / json of that type; before and after the generator): the
+# compile must be refused with a diagnostic, or the user's marker is in the output exactly once AND everything the generator alone
+# wrote to that file is still there.
+CORE_GENERATORS = {
+    "core:if-else": 'function gen0() { if ($x > 1) { say "g1"; say "g2"; } else { say "g3"; say "g4"; } }',
+    "core:while": 'function gen0() { while ($x > 1) { say "g1"; $x -= 1; } }',
+    "core:switch": 'function gen0() { switch($x) { case 1: say "g1"; say "g2"; case 2: say "g3"; say "g4"; } }',
+    "core:anonymous": 'function gen0() { execute as @a run { say "g1"; say "g2"; } schedule 5t { say "g3"; say "g4"; } }',
+    "core:add-tick": '@add(__tick__) function added0() { say "g1"; }',
+    "core:add-tick-class": 'class kit { @add(__tick__) function added0() { say "g1"; } @add(__tick__) function added1() { say "g2"; } }',
+    "core:add-load": '@add(__load__) function added0() { say "g1"; }',
+    "core:add-func": 'function base0() { say "g0"; }\n@add(base0) function added0() { say "g1"; }',
+    "core:add-tick+timer": '@add(__tick__) function added0() { say "g1"; }\nTimer.add(cd9, runTick, @a, ()=>{ say "g2"; say "g3"; });',
+    "core:load-statements": 'say "g1";\nif ($x > 1) { say "g2"; say "g3"; }',
+}
+NAME_SETS = [dict(), dict(LOAD="init", TICK="sys/tick", PRIVATE="jmc/internal")]
+
+
+def _spell(job_src, names):
+    n = names_of(dict(names=names))
+    return (job_src.replace("__tick__", n["TICK"].replace("/", ".")).replace("__load__", n["LOAD"].replace("/", "."))
+            .replace("__private__", n["PRIVATE"].replace("/", ".")))
+
+
+def generated_name_cases(rng, tier, consts):
+    """-> (cases, coverage); a case = dict(origin, job, marker, file, keep=[lines the generator alone wrote to that file])"""
+    import c07
+    registry = run_py(OPTRACE, {"mode": "registry"})
+    gens = {}       # name -> (src, pack_format, header)
+    probes = c07.builtin_probe_jobs(registry, CERT)
+    flat = [dict(src=j["src"], cert=j["cert"], pack_format=j["pack_format"]) for _, js in probes for j in js]
+    pres = compile_batch(flat, chunk=120)
+    pos = 0
+    for name, js in probes:
+        rs = pres[pos:pos + len(js)]
+        pos += len(js)
+        hit = next((j for j, r in zip(js, rs) if r["ok"]), None)
+        if hit:
+            gens["builtin:" + name] = (hit["src"], hit["pack_format"], None)
+    for name, spec in c07.HAND_PROBES.items():
+        gens["probe:" + name] = (spec[0], spec[1], spec[2] if len(spec) > 2 else None)
+    for name, src in CORE_GENERATORS.items():
+        gens[name] = (src, 48, None)
+    baseline_src = 'function probe.target() { say "t1"; say "t2"; }\n'
+    types = sorted(consts["types"], key=len, reverse=True)
+    cases, per_gen, skipped = [], {}, []
+    # 1. what does each generator alone write?
+    alone_jobs, keys = [], []
+    for ni, names in enumerate(NAME_SETS):
+        cfg = dict(names=names)
+        for g, (src, pf, hdr) in gens.items():
+            hdr2 = "\n".join(h for h in (hdr, "#override minecraft") if h)
+            alone_jobs.append(dict(src=_spell(src, names), cert=cert_of(cfg), pack_format=pf, header=hdr2, namespace="TEST"))
+            keys.append((ni, g))
+        alone_jobs.append(dict(src=baseline_src, cert=cert_of(cfg), pack_format=48, header="#override minecraft", namespace="TEST"))
+        keys.append((ni, None))
+    alone = dict(zip(keys, compile_batch(alone_jobs, chunk=60)))
+    mk = 0
+    for (ni, g), r in alone.items():
+        if g is None or not r["ok"]:
+            if g is not None:
+                skipped.append(g)
+            continue
+        names = NAME_SETS[ni]
+        cfg = dict(names=names)
+        n = names_of(cfg)
+        src, pf, hdr = gens[g]
+        base = alone[(ni, None)]["files"]
+        ff = "functions" if float(pf) < 48 else "function"
+        resources = []
+        for path, content in r["files"].items():
+            m = re.match(r"^VIRTUAL/data/([^/]+)/(.*)\.(mcfunction|json)$", path)
+            if not m or path.endswith("pack.mcmeta"):
+                continue
+            bpath = path.replace("/functions/", "/function/") if ff == "functions" else path
+            old = base.get(bpath, None) if m.group(3) == "mcfunction" else base.get(bpath)
+            if old == content and "probe/target" in path:
+                continue
+            if m.group(3) == "mcfunction":
+                keep = [l for l in content.split("\n") if l and l not in (old or "").split("\n")]
+                if old is not None and not keep:
+                    continue
+                rel = m.group(2)[len(ff) + 1:]
+                if m.group(1) != "TEST" or rel == n["LOAD"]:
+                    continue                                        # (the load function can never be user-defined: "Load function is defined")
+                resources.append(("func", path, rel, keep))
+            else:
+                if old == content and not (m.group(1) == "minecraft" and g in ("core:load-statements", "core:add-load", "probe:Timer.*")):
+                    continue                                        # (the load tag is written for every program: kept for three generators)
+                t = next((t for t in types if m.group(2).startswith(t + "/")), None)
+                if m.group(2).startswith("tags/"):
+                    t = "/".join(m.group(2).split("/")[:2])
+                legacy_t = next((t for t in consts["legacy"] if m.group(2).startswith(t + "/")), None)
+                t = t or legacy_t
+                if t is None:
+                    continue
+                rel = m.group(2)[len(t) + 1:]
+                resources.append(("json", path, (t, rel, m.group(1)), [content]))
+        if tier == "quick" and len(resources) > 4:
+            # the load/tick function, every json, and a sample of the private functions
+            first = [x for x in resources if x[0] == "json" or x[2] == n["TICK"]]
+            rest = [x for x in resources if x not in first]
+            resources = first[:4] + rng.sample(rest, min(len(rest), max(0, 4 - len(first[:4]))))
+        per_gen[g] = per_gen.get(g, 0) + len(resources)
+        gsrc = _spell(src, names)
+        hdr2 = "\n".join(h for h in (hdr, "#override minecraft") if h)
+        for kind, path, rel, keep in resources:
+            forms = []
+            mk += 1
+            if kind == "func":
+                dotted = rel.replace("/", ".")
+                forms.append(f'function {dotted}() {{ say "{mark(mk)}"; }}')
+                if "/" in rel:
+                    cls, member = rel.rsplit("/", 1)
+                    forms.append(f'class {cls.replace("/", ".")} {{ function {member}() {{ say "{mark(mk)}"; }} }}')
+                    forms.append(f'class {cls.replace("/", ".")} {{ function other0() {{ say "o"; }} function {member}() {{ say "{mark(mk)}"; function inner0() {{ say "i"; }} }} }}')
+                else:
+                    forms.append(f'function {dotted}() {{ say "{mark(mk)}"; function inner0() {{ say "i"; }} }}')
+            else:
+                t, name, jns = rel
+                dotted = (jns + "." if jns != "TEST" else "") + name.replace("/", ".")
+                forms.append(f'new {t.replace("/", ".")}({dotted}) {{"m": "{mark(mk)}"}}')
+            if tier == "quick" and len(forms) > 1:
+                forms = [forms[0], rng.choice(forms[1:])]
+            for fi, form in enumerate(forms):
+                for order in ("user-first", "user-last"):
+                    usrc = (form + "\n" + gsrc) if order == "user-first" else (gsrc + "\n" + form)
+                    cases.append(dict(origin=f"genname:{g}:{ni}:{order}:{fi}", marker=mark(mk), file=path, keep=keep, resource_kind=kind,
+                                      job=dict(src=usrc, cert=cert_of(cfg), pack_format=pf, header=hdr2, namespace="TEST")))
+    cov = dict(generators=len(gens), generators_not_compiling=sorted(set(skipped)), name_sets=len(NAME_SETS),
+               generated_resources=sum(per_gen.values()), cases=len(cases))
+    return cases, cov
+
+
+def generated_name_failure(case, res):
+    """None, or the way a user definition at a generated name was silently lost / replaced the generated content"""
+    if not res["ok"]:
+        if res.get("jmc") or res.get("exc") == "Timeout":
+            return None
+        return dict(kind="internal-error", exc=res["exc"], msg=res["msg"][:300], frame=res.get("frame"))
+    total = sum(c.count(case["marker"]) for c in res["files"].values())
+    if total != 1:
+        return dict(kind="definition-lost-or-duplicated", marker=case["marker"], count=total, file=case["file"],
+                    note="a user definition at a name the compiler generates itself was accepted but its body is not in the output exactly once")
+    content = res["files"].get(case["file"])
+    if case["resource_kind"] == "json":
+        if content is None or content not in case["keep"]:
+            # the user json and the generated json cannot both be in one file
+            return dict(kind="generated-resource-replaced", file=case["file"], expected=case["keep"][0][:200], actual=(content or "<missing>")[:200])
+        return None
+    lines = (content or "").split("\n")
+    missing = [l for l in case["keep"] if l not in lines]
+    if missing:
+        return dict(kind="generated-resource-replaced", file=case["file"], missing_lines=missing[:5], actual=(content or "<missing>")[:400],
+                    note="the lines the generator writes to this file are gone although the compile was accepted")
+    return None
+
 CONFIGS = [
     dict(ns="TEST", pack_format=-1, overrides=[]),
     dict(ns="mypack", pack_format=61, overrides=["minecraft"]),
     dict(ns="mypack", pack_format=15, overrides=["minecraft", "mypack"]),
     dict(ns="TEST", pack_format=48, overrides=[]),
     dict(ns="mypack", pack_format=48, overrides=["shared", "minecraft"]),      # (round 2) override namespaces entered >= 2 levels deep
+    # (round 3) jmc.txt names other than the defaults: the internal names of the table shapes are spelled accordingly
+    dict(ns="TEST", pack_format=61, overrides=["minecraft"], names=dict(LOAD="init", TICK="sys/tick", PRIVATE="jmc/internal")),
 ]
 
 
+def internal(text, cfg):
+    """the internal names as the user spells them under cfg: __load__ / __tick__ / __private__ stand for the jmc.txt names"""
+    if not cfg.get("names") or not isinstance(text, str):
+        return text
+    n = names_of(cfg)
+    return (text.replace("__load__", n["LOAD"].replace("/", ".")).replace("__tick__", n["TICK"].replace("/", "."))
+            .replace("__private__", n["PRIVATE"].replace("/", ".")))
+
+
 def resolve(items, cfg):
-    """replace the placeholder json type @LOC by the folder Predicate.locations uses under cfg"""
+    """replace the placeholder json type @LOC by the folder Predicate.locations uses under cfg, and the default internal names by cfg's"""
     out = []
     for it in items:
         if it[0] == "func":
-            out.append(("func", it[1], it[2], resolve(it[3], cfg)) + tuple(it[4:]))
+            rest = list(it[4:])
+            if len(rest) > 1 and rest[1] and rest[1].get("deco"):
+                rest[1] = dict(rest[1], deco=internal(rest[1]["deco"], cfg))
+            out.append(("func", internal(it[1], cfg), it[2], resolve(it[3], cfg)) + tuple(rest))
         elif it[0] == "class":
-            out.append(("class", it[1], resolve(it[2], cfg)))
+            out.append(("class", internal(it[1], cfg), resolve(it[2], cfg)))
+        elif it[0] == "lazy":
+            out.append(("lazy", it[1], it[2], resolve(it[3], cfg), it[4]) + tuple(it[5:]))
+        elif it[0] == "new" and it[1] != "@LOC":
+            out.append(("new", it[1], internal(it[2], cfg), it[3]))
         elif it[0] == "new" and it[1] == "@LOC":
             out.append(("new", cfg.get("locfolder", "predicate"), it[2], it[3]))
         else:
@@ -530,9 +1073,20 @@ def resolve(items, cfg):
     return out
 
 
+def names_of(cfg) -> dict:
+    """jmc.txt names of a configuration (round 3: not only the defaults)"""
+    n = dict(LOAD="__load__", TICK="__tick__", PRIVATE="__private__", VAR="__variable__", INT="__int__", STORAGE="__storage__")
+    n.update(cfg.get("names") or {})
+    return n
+
+
+def cert_of(cfg) -> str:
+    return "\n".join(f"{k}={v}" for k, v in names_of(cfg).items())
+
+
 def job_of(prog, cfg):
     header = "\n".join(f"#override {o}" for o in cfg["overrides"]) or None
-    return dict(src=render(prog), header=header, cert=CERT, pack_format=cfg["pack_format"], namespace=cfg["ns"])
+    return dict(src=render(prog), header=header, cert=cert_of(cfg), pack_format=cfg["pack_format"], namespace=cfg["ns"])
 
 
 def found_markers(prog, res):
@@ -609,11 +1163,12 @@ COQ_HEADER = ("From Coq Require Import String List.\nFrom JMCV Require Import Mo
 
 def case_term(case, consts, flags):
     cfg, res = case["cfg"], case["res"]
-    d = (f'(mkD "__private__" "__load__" {coq_list(coq_str(o) for o in cfg["overrides"])} '
+    d = (f'(mkD {coq_str(names_of(cfg)["PRIVATE"])} {coq_str(names_of(cfg)["LOAD"])} {coq_list(coq_str(o) for o in cfg["overrides"])} '
          f'{coq_bool(float(cfg["pack_format"]) < 48)} types legacy_types)')
     fx = f'(mkFx {coq_bool(flags["strict"])} {coq_bool(flags["nested"])} {coq_bool(flags["privjson"])} {coq_bool(flags["gendup"])})'
-    found = coq_list(f"({mk}, {coq_str(p)})" for mk, p in case["found"])
-    return (f'mkCase {d} {fx} {coq_str(cfg["ns"])} {coq_list(item_term(x, cfg["locfolder"]) for x in case["prog"])} '
+    skip = {mk for mk, (kind, _) in markers_of(case["prog"]).items() if kind == "loadtext"}     # load statements are no definitions
+    found = coq_list(f"({mk}, {coq_str(p)})" for mk, p in case["found"] if mk not in skip)
+    return (f'mkCase {d} {fx} {coq_str(cfg["ns"])} {coq_list(item_term(x, cfg["locfolder"]) for x in model_tree(case["prog"]))} '
             f'{coq_bool(res["ok"])} {coq_str(res.get("exc") or "")} {found}')
 
 
@@ -664,14 +1219,29 @@ def main(tier: str) -> int:
     tg = TreeGen(rng)
     n_rand = 260 if tier == "quick" else 3000
     for i in range(n_rand):
-        cases.append(dict(origin=f"random:{i}", prog=add_calls(rng, resolve(tg.program(), CONFIGS[i % len(CONFIGS)])), cfg=CONFIGS[i % len(CONFIGS)]))
+        cfg = CONFIGS[i % len(CONFIGS)]
+        cases.append(dict(origin=f"random:{i}", cfg=cfg,
+                          prog=add_calls(rng, resolve(tg.program(), cfg), internal_targets=(internal("__load__", cfg), internal("__tick__", cfg)))))
     # (round 2) trees with zero-command bodies, saved decorators, deep override names and every call form
     tg2 = TreeGen(rng, decorated=True)
     n_rand2 = 240 if tier == "quick" else 2400
     for i in range(n_rand2):
         cfg = CONFIGS[(i + 1) % len(CONFIGS)] if i % 3 else CONFIGS[-1]
         cases.append(dict(origin=f"random-decorated:{i}", cfg=cfg,
-                          prog=add_calls(rng, resolve(tg2.program(), cfg), forms=True, with_ok=float(cfg["pack_format"]) >= 16)))
+                          prog=add_calls(rng, resolve(tg2.program(), cfg), forms=True, with_ok=float(cfg["pack_format"]) >= 16,
+                                         internal_targets=(internal("__load__", cfg), internal("__tick__", cfg)))))
+    # (round 3) @lazy functions in classes x callers in other classes / nested classes / top level / load
+    for name, prog in LAZY_SHAPES:
+        for cfg in CONFIGS:
+            if uses_with(prog) and float(cfg["pack_format"]) != -1 and float(cfg["pack_format"]) < 48:
+                continue
+            cases.append(dict(origin=f"table:{name}", prog=resolve(prog, cfg), cfg=cfg))
+    lg = LazyGen(rng)
+    n_lazy = 160 if tier == "quick" else 1600
+    for i in range(n_lazy):
+        cfg = CONFIGS[i % len(CONFIGS)]
+        cases.append(dict(origin=f"random-lazy:{i}", cfg=cfg,
+                          prog=resolve(lg.program(with_ok=float(cfg["pack_format"]) == -1 or float(cfg["pack_format"]) >= 48), cfg)))
     for c in cases:
         c["job"] = job_of(c["prog"], c["cfg"])
     results = compile_batch([c["job"] for c in cases], chunk=60)
@@ -731,7 +1301,7 @@ def main(tier: str) -> int:
             if cs:
                 fail = dict(kind="call-site-misdirected", sites=cs[:3])
         if fail is None:
-            rf = reference_failures(c["prog"], c["cfg"], r)
+            rf = reference_failures(c["prog"], c["cfg"], r) + lazy_text_failures(c["prog"], r)
             if rf:
                 fail = dict(kind=rf[0]["kind"], failures=rf[:3])
         if fail:
@@ -780,14 +1350,36 @@ def main(tier: str) -> int:
             ck.violation(dict(kind="model-loses-definition", origin=c["origin"], program=c["job"]["src"]), no_input=True)
             break
 
+    # ---- (round 3) user definitions at every compiler-generated name x every generator (plain-Python oracle)
+    gcases, gcov = generated_name_cases(rng, tier, consts)
+    gres = compile_batch([g["job"] for g in gcases], chunk=80)
+    g_verdicts = {}
+    for g, r in zip(gcases, gres):
+        v = "ok" if r["ok"] else r["exc"]
+        g_verdicts[v] = g_verdicts.get(v, 0) + 1
+        gf = generated_name_failure(g, r)
+        if gf:
+            n_fail += 1
+            key = ("genname", gf["kind"], g["origin"].split(":")[1])
+            if key in reported or len([k for k in reported if isinstance(k, tuple) and k[0] == "genname"]) >= 4:
+                continue
+            reported.add(key)
+            ck.violation(dict(kind=gf["kind"], failure=gf, program=g["job"]["src"], header=g["job"]["header"], namespace="TEST",
+                              pack_format=g["job"]["pack_format"], origin=g["origin"], job=g["job"], gen_case=dict(marker=g["marker"], file=g["file"], keep=g["keep"], resource_kind=g["resource_kind"]),
+                              expected="a user definition at a name the compiler generates itself is refused with a diagnostic, or its body is in the output exactly "
+                                       "once and everything the generator wrote to that file is still there (never silently replaced)",
+                              actual=gf))
+    gcov["verdicts"] = g_verdicts
+
     def size(items):
-        return sum(1 + (size(it[3]) if it[0] == "func" else size(it[2]) if it[0] == "class" else 0) for it in items)
+        return sum(1 + (size(it[3]) if it[0] in ("func", "lazy") else size(it[2]) if it[0] == "class" else 0) for it in items)
     ck.cov.update(dict(
         evaluations=len(cases), distinct_nontrivial=len({json.dumps([c["prog"], c["cfg"]], sort_keys=True) for c in cases
                                                          if size(c["prog"]) >= 2}),
         rule="a case = one definition tree x configuration (namespace, pack format, #override set); non-trivial = at least two definitions",
         programs=len(cases), table_cases=sum(1 for c in cases if c["origin"].startswith("table:")), random_cases=n_rand,
-        random_decorated_cases=n_rand2, type_sweep_cases=len(set(sweep)),
+        random_decorated_cases=n_rand2, type_sweep_cases=len(set(sweep)), random_lazy_cases=n_lazy,
+        lazy=lazy_coverage(cases), generated_names=gcov,
         zero_command_definitions=sum(1 for c in cases for _, _, o in documented_functions(c["prog"]) if o.get("body", "marker") != "marker"),
         decorated_definitions=sum(1 for c in cases for _, _, o in documented_functions(c["prog"]) if o.get("deco")),
         call_forms={f: sum(1 for c in cases if f'"{f}"' in json.dumps(c["prog"])) for f in ("sched", "exec", "with")},
